@@ -391,7 +391,11 @@ func (r *FnResult) condFacts(cond ssa.Value, branch bool, s *State) {
 			}
 			break
 		}
-		if onlyPhisBefore {
+		// A phi tested in a later block (`ok := a && b; …; if ok`): between the phi and the test
+		// facts may have been killed, so only history facts — facts no spec of this flow ever kills
+		// ("X happened on this path") — are carried over from the feasible incoming edges.
+		farPhi := !onlyPhisBefore
+		if onlyPhisBefore || farPhi {
 			r.phiDepth++ // edgeState below may come back here through another test of the same phi
 			defer func() { r.phiDepth-- }()
 			acc := topState()
@@ -415,9 +419,10 @@ func (r *FnResult) condFacts(cond ssa.Value, branch bool, s *State) {
 			}
 			if !acc.top {
 				for k := range acc.m {
-					if !isLocalFact(k) {
-						s.add(k)
+					if isLocalFact(k) || (farPhi && r.fl.killable[k]) {
+						continue
 					}
+					s.add(k)
 				}
 			}
 		}
